@@ -275,6 +275,76 @@ func (s *c19Sink) Write(p []byte) (int, error) {
 	return s.buf.Write(p)
 }
 
+// c19SeekSink is a seekable in-memory sink; writes and seeks are counted together
+// and the failAt-th operation (and all later ones) fails.
+type c19SeekSink struct {
+	calls  int
+	failAt int
+	err    error
+	data   []byte
+	pos    int64
+}
+
+func (s *c19SeekSink) Write(p []byte) (int, error) {
+	s.calls++
+	if s.failAt > 0 && s.calls >= s.failAt {
+		return 0, s.err
+	}
+	if end := s.pos + int64(len(p)); end > int64(len(s.data)) {
+		s.data = append(s.data, make([]byte, end-int64(len(s.data)))...)
+	}
+	copy(s.data[s.pos:], p)
+	s.pos += int64(len(p))
+	return len(p), nil
+}
+
+func (s *c19SeekSink) Seek(off int64, whence int) (int64, error) {
+	s.calls++
+	if s.failAt > 0 && s.calls >= s.failAt {
+		return s.pos, s.err
+	}
+	switch whence {
+	case io.SeekStart:
+		s.pos = off
+	case io.SeekCurrent:
+		s.pos += off
+	case io.SeekEnd:
+		s.pos = int64(len(s.data)) + off
+	}
+	if s.pos < 0 {
+		s.pos = 0
+		return 0, errors.New("negative position")
+	}
+	return s.pos, nil
+}
+
+// c19OnceSink fails exactly one operation.
+type c19OnceSink struct{ c19SeekSink }
+
+func (s *c19OnceSink) Write(p []byte) (int, error) {
+	if s.calls+1 == s.failAt {
+		s.calls++
+		return 0, s.err
+	}
+	f := s.failAt
+	s.failAt = 0
+	n, err := s.c19SeekSink.Write(p)
+	s.failAt = f
+	return n, err
+}
+
+func (s *c19OnceSink) Seek(off int64, whence int) (int64, error) {
+	if s.calls+1 == s.failAt {
+		s.calls++
+		return s.pos, s.err
+	}
+	f := s.failAt
+	s.failAt = 0
+	n, err := s.c19SeekSink.Seek(off, whence)
+	s.failAt = f
+	return n, err
+}
+
 func TestB2C19WriteFaults(t *testing.T) {
 	cases := 0
 	injected := errors.New("injected sink failure")
@@ -303,6 +373,16 @@ func TestB2C19WriteFaults(t *testing.T) {
 			note(sw.Close())
 		}
 		note(w.Put(w.Alloc(), String(bytes.Repeat([]byte("x"), 9000))))
+		// streams long enough that their /Length is patched in on a seekable sink
+		for _, n := range []int{3000, 70000} {
+			if sw, err := w.OpenStream(w.Alloc(), Dict{}); err != nil {
+				note(err)
+			} else {
+				_, err = sw.Write(c02Data(n, 1))
+				note(err)
+				note(sw.Close())
+			}
+		}
 		note(w.Close())
 		return firstErr
 	}
@@ -318,6 +398,32 @@ func TestB2C19WriteFaults(t *testing.T) {
 			err := run(sink, v)
 			if err == nil || !errors.Is(err, injected) {
 				t.Errorf("B2-FAIL sink-error-lost version=%v k=%d: %v", v, k, err)
+			}
+		}
+		// the same script on a seekable sink (stream lengths are patched in place)
+		sbase := &c19SeekSink{}
+		if err := run(sbase, v); err != nil {
+			t.Errorf("B2-FAIL baseline-write seekable: %v", err)
+			continue
+		}
+		if _, err := c05Walk(bytes.NewReader(sbase.data), int64(len(sbase.data)), "", ErrorHandlingStop); err != nil {
+			t.Errorf("B2-FAIL baseline-write seekable: file does not read back: %v", err)
+		}
+		for k := 1; k <= sbase.calls; k++ {
+			cases++
+			sink := &c19SeekSink{failAt: k, err: injected}
+			err := run(sink, v)
+			if err == nil || !errors.Is(err, injected) {
+				t.Errorf("B2-FAIL sink-error-lost seekable version=%v k=%d: %v", v, k, err)
+			}
+		}
+		// a single failing operation (later ones succeed) must be reported as well
+		for k := 1; k <= sbase.calls; k++ {
+			cases++
+			sink := &c19OnceSink{c19SeekSink{failAt: k, err: injected}}
+			err := run(sink, v)
+			if err == nil || !errors.Is(err, injected) {
+				t.Errorf("B2-FAIL sink-error-lost seekable-once version=%v k=%d: %v", v, k, err)
 			}
 		}
 	}
